@@ -93,6 +93,11 @@ fn single_case(p: &MP, s: &MState, rep: &mut Report, origin: &str) {
     };
     let real0 = match build_real(s) {
         Ok(r) => r,
+        Err(pushvm::BuildError::Panic(p)) => {
+            rep.eval();
+            rep.violation("C01/initial-state/builder-panicked", || json!({"origin": origin, "state": s.to_json(), "panic": p, "meaning": "a legal initial state (stack contents within the configured limits) cannot even be assembled"}));
+            return;
+        }
         Err(e) => {
             rep.inconclusive(format!("generator produced an unbuildable state: {e:?}"));
             return;
@@ -383,6 +388,11 @@ fn program_case(m0: &MState, origin: &str, max_prefix: usize, rep: &mut Report) 
         init.step_limit = l;
         let real0 = match build_real(&init) {
             Ok(r) => r,
+            Err(pushvm::BuildError::Panic(p)) => {
+                rep.eval();
+                rep.violation("C01/initial-state/builder-panicked", || json!({"origin": origin, "state": init.to_json(), "panic": p, "meaning": "a legal initial state (stack contents within the configured limits) cannot even be assembled"}));
+                return;
+            }
             Err(e) => {
                 rep.inconclusive(format!("generator produced an unbuildable program state: {e:?}"));
                 return;
